@@ -334,14 +334,18 @@ def run_reference(env, cmd, rec):
     return PR.reference(words, rec["environment"], rec["workdir"], cmd["timeout"])
 
 
-async def settle(recs, cmds, maxwait=12.0):
-    if not any(c["spec"].get("sleep_before") or c["spec"].get("sleep_after") for c in cmds):
-        return
+async def settle(recs, cmds, cdir, maxwait=90.0):
+    """Logical criterion: no live process still carries this case's directory on its command line (a timed-out
+    command is not killed by StreamFlow and may, on a loaded machine, not even have started when run() returns)
+    and every started probe has ended.  Returns False if the watchdog expired."""
+    if not any(c["timeout"] for c in cmds):
+        return True
     t0 = time.monotonic()
     while time.monotonic() - t0 < maxwait:
-        if all(tag_settled(r["tagdir"]) for r in recs):
-            return
+        if SG.procs_mentioning(cdir) == 0 and all(tag_settled(r["tagdir"]) for r in recs):
+            return True
         await asyncio.sleep(0.1)
+    return False
 
 
 def hostile_value(v):
@@ -385,7 +389,10 @@ async def run_case(env, sh: Shard, case: dict):
         if cmd["timeout"]:
             sh.count("timeouts_injected")
     refs = [await asyncio.to_thread(run_reference, env, cmd, rec) for cmd, rec in zip(cmds, recs)]
-    await settle(recs, cmds)
+    if not await settle(recs, cmds, cdir):
+        sh.inconclusive_because(f"processes of a timed-out command were still alive after the watchdog: {target} sequence")
+        shutil.rmtree(cdir, ignore_errors=True)
+        return
     last_shell_timeout = None  # index of the most recent command that timed out *on the persistent shell*
     for k, (cmd, rec, ref) in enumerate(zip(cmds, recs, refs)):
         tag, rtag = PR.read_tag(rec["tagdir"]), PR.read_tag(rec["reftag"])
